@@ -1600,6 +1600,14 @@ pub fn host_filter_gate() -> Value {
 			(vec!["parity.io", "localhost:9933"], vec!["localhost:9934"], "/", 403),
 			(vec!["parity.io:80", "parity.io:81"], vec!["parity.io:81"], "/", 200),
 			(vec!["parity.io:80", "parity.io:81"], vec!["parity.io:82"], "/", 403),
+			(vec!["parity.io:80", "parity.io:81"], vec!["parity.io:80"], "/", 200),
+			(vec!["parity.io:1", "other.io:9", "parity.io:2", "parity.io:3"], vec!["parity.io:1"], "/", 200),
+			(vec!["parity.io:1", "other.io:9", "parity.io:2", "parity.io:3"], vec!["parity.io:2"], "/", 200),
+			(vec!["parity.io:1", "other.io:9", "parity.io:2", "parity.io:3"], vec!["parity.io:3"], "/", 200),
+			(vec!["parity.io:1", "other.io:9", "parity.io:2", "parity.io:3"], vec!["parity.io:9"], "/", 403),
+			(vec!["parity.io:1", "other.io:9", "parity.io:2", "parity.io:3"], vec!["other.io:9"], "/", 200),
+			(vec!["parity.io:1", "parity.io"], vec!["parity.io"], "/", 200),
+			(vec!["parity.io:1", "parity.io"], vec!["parity.io:1"], "/", 200),
 			(vec!["parity.io"], vec![], "/", 400),
 			(vec!["parity.io"], vec!["parity.io"], "http://other.io/", 400),
 			(vec!["parity.io"], vec!["parity.io"], "http://parity.io/", 200),
